@@ -14,6 +14,7 @@ import (
 	"os"
 	"runtime"
 	"sort"
+	"strings"
 	"sync"
 	"sync/atomic"
 
@@ -55,6 +56,7 @@ func cmdConc(args []string) {
 	seed := fs.Int64("seed", 1, "seed")
 	out := fs.String("out", "", "trace ndjson")
 	fullEvery := fs.Int("full-every", 10, "compute the digest of the whole shared state at every k-th end event")
+	kinds := fs.String("kinds", "", "comma separated call kinds to keep (parse, parsedf, sqldf ...); empty = all")
 	phase := fs.String("phase", "both", "seq = only the sequential baseline (a fresh process), conc = only the concurrent phase, both")
 	fs.Parse(args)
 	var queries []string
@@ -126,6 +128,19 @@ func cmdConc(args []string) {
 			concCall{fmt.Sprintf("gostr:%d", k), func() string { return digest(fmt.Sprintf("%#v", e)) }},
 			concCall{fmt.Sprintf("json:%d", k), func() string { b, err := json.Marshal(e); return digest(string(b), err == nil) }},
 			concCall{fmt.Sprintf("validate:%d", k), func() string { return digest(expr.Validate(e) == nil) }})
+	}
+	if *kinds != "" { // a narrower set of calls: many goroutines then make the same few kinds of call at the same time
+		keep := map[string]bool{}
+		for _, k := range strings.Split(*kinds, ",") {
+			keep[k] = true
+		}
+		var sel []concCall
+		for _, c := range calls {
+			if keep[c.id[:strings.Index(c.id, ":")]] {
+				sel = append(sel, c)
+			}
+		}
+		calls = sel
 	}
 	sharedDigest := func() string {
 		parts := []any{len(driver.Shared), len(pg.RenderFNs)}
